@@ -4,7 +4,6 @@ import (
 	"bytes"
 
 	"github.com/cedar-policy/cedar-go/internal/extensions"
-	"github.com/cedar-policy/cedar-go/types"
 	"github.com/cedar-policy/cedar-go/x/exp/ast"
 )
 
@@ -182,15 +181,6 @@ func (n primaryPrecedenceNode) precedenceLevel() nodePrecedenceLevel {
 type NodeValue struct {
 	ast.NodeValue
 	primaryPrecedenceNode
-}
-
-// A negative integer is written with a unary minus, so as an operand it binds like a unary
-// expression: `(-1).foo`, not `-1.foo`.
-func (n NodeValue) precedenceLevel() nodePrecedenceLevel {
-	if l, ok := n.Value.(types.Long); ok && l < 0 {
-		return unaryPrecedence
-	}
-	return primaryPrecedence
 }
 
 type NodeTypeRecord struct {
